@@ -13,11 +13,11 @@ import (
 )
 
 const govcStub = `#!/bin/sh
-echo "$(basename $0) $*" >> "$GOVC_LOG"
+echo "${0##*/} $*" >> "$GOVC_LOG"
 case "$*" in
   *--help*|-v|*" -v") exit 0 ;;
 esac
-if [ -f "$GOVC_DIR/fail.$(basename $0)" ]; then exit 1; fi
+if [ -f "$GOVC_DIR/fail.${0##*/}" ]; then exit 1; fi
 exit 0
 `
 
